@@ -190,6 +190,10 @@ def replace_subgroups(
             new_value = field_value
 
         replace_kwargs[field.name] = new_value
+    if selections:
+        raise TypeError(
+            f"{type(obj).__name__} has no field(s) {sorted(selections)} to select subgroups for."
+        )
     return dataclasses.replace(obj, **replace_kwargs)
 
 
